@@ -304,50 +304,102 @@ theorem qualGet_map (q : QDict) (f : List Str → List Str) (k : Str) :
     · simp only [List.map_cons, qualGet, qGet, he, if_false]
       exact ih
 
+def mergedOf (c : Child) : QDict :=
+  match c.cds with
+  | none => c.tx.quals.map fun e => (e.1, setOfP e.2)
+  | some cr => cr.quals.foldl (fun (acc : QDict) (e : Str × List Str) => mergeInto acc e.1 e.2)
+      (c.tx.quals.map fun e => (e.1, setOfP e.2))
+
+theorem mergeCds_eq (c : Child) :
+    mergeCdsQualifiers c = (mergedOf c).map fun e => (e.1, Model.Qual.sortStrs e.2) := rfl
+
+theorem qualGet_nil_of_qGet_none (k : Str) : ∀ (q : QDict), qGet k q = none → qualGet k q = []
+  | [], _ => rfl
+  | e :: es, hq => by
+    by_cases he : e.1 = k
+    · simp [qGet, he] at hq
+    · simp only [qGet, he, if_false] at hq
+      simp only [qualGet, he, if_false]
+      exact qualGet_nil_of_qGet_none k es hq
+
 /-- a value of the transcript record survives in the merged, sorted qualifiers of the parsed transcript -/
 theorem mergeCds_has (c : Child) (k v : Str) (vs : List Str) (hq : qGet k c.tx.quals = some vs) (hv : v ∈ vs) :
     hasQual (mergeCdsQualifiers c) k v = true := by
-  rw [hasQual_iff]
-  unfold mergeCdsQualifiers
-  simp only []
-  rw [qualGet_map]
+  rw [hasQual_iff, mergeCds_eq, qualGet_map]
   have hbase : v ∈ qualGet k (c.tx.quals.map fun e => (e.1, setOfP e.2)) := by
     rw [qualGet_map, hq, qualGet_of_qGet k _ vs hq]
     simp only [Option.isSome_some, if_true]
     unfold setOfP
     exact (mem_foldl_setAddP _ _ _).mpr (Or.inr hv)
-  have hmerged : v ∈ qualGet k (match c.cds with
-      | none => c.tx.quals.map fun e => (e.1, setOfP e.2)
-      | some cr => cr.quals.foldl (fun (acc : QDict) (e : Str × List Str) => mergeInto acc e.1 e.2)
-          (c.tx.quals.map fun e => (e.1, setOfP e.2))) := by
+  have hmerged : v ∈ qualGet k (mergedOf c) := by
+    unfold mergedOf
     cases c.cds with
     | none => exact hbase
     | some cr => exact foldl_mergeInto_mono _ _ _ _ hbase
-  split
-  · unfold Model.Qual.sortStrs
+  cases hg : qGet k (mergedOf c) with
+  | none => rw [qualGet_nil_of_qGet_none k _ hg] at hmerged; simp at hmerged
+  | some ws =>
+    simp only [Option.isSome_some, if_true]
+    unfold Model.Qual.sortStrs
     exact List.mem_mergeSort.mpr hmerged
-  · next hnone =>
-    -- a key that holds a value is present
-    exfalso
-    apply hnone
-    cases hg : qGet k (match c.cds with
-      | none => c.tx.quals.map fun e => (e.1, setOfP e.2)
-      | some cr => cr.quals.foldl (fun (acc : QDict) (e : Str × List Str) => mergeInto acc e.1 e.2)
-          (c.tx.quals.map fun e => (e.1, setOfP e.2))) with
-    | some _ => rfl
-    | none =>
-      exfalso
-      have : ∀ (q : QDict), qGet k q = none → qualGet k q = [] := by
-        intro q hq
-        induction q with
-        | nil => rfl
-        | cons e es ih =>
-          by_cases he : e.1 = k
-          · simp [qGet, he] at hq
-          · simp only [qGet, he, if_false] at hq
-            simp only [qualGet, he, if_false]
-            exact ih hq
-      rw [this _ hg] at hmerged
-      simp at hmerged
+
+end BioCantor.Proofs.Gb
+
+namespace BioCantor.Proofs.Gb
+open BioCantor BioCantor.Spec.Qual BioCantor.Spec.Gb BioCantor.Model BioCantor.Model.Gb
+
+/-! ### `get_qualifier_from_tx_or_cds_features` -/
+
+theorem qualFrom_same (c : Child) (k : Str) (cr : Rec) (o : Option Str)
+    (htx : qGet k c.tx.quals = o.map fun v => [v]) (hc : c.cds = some cr)
+    (hcd : qGet k cr.quals = o.map fun v => [v]) : qualFromTxOrCds c k = .ok o := by
+  unfold qualFromTxOrCds
+  cases o with
+  | some v => simp only [Option.map_some] at htx; rw [htx]; rfl
+  | none =>
+    simp only [Option.map_none] at htx hcd
+    rw [htx]; simp only [hc, hcd]; rfl
+
+theorem qualFrom_cds (c : Child) (k : Str) (cr : Rec) (o : Option Str)
+    (htx : qGet k c.tx.quals = none) (hc : c.cds = some cr)
+    (hcd : qGet k cr.quals = o.map fun v => [v]) : qualFromTxOrCds c k = .ok o := by
+  unfold qualFromTxOrCds
+  rw [htx]; simp only [hc]
+  cases o with
+  | some v => simp only [Option.map_some] at hcd; rw [hcd]; rfl
+  | none => simp only [Option.map_none] at hcd; rw [hcd]; rfl
+
+theorem qualFrom_nocds (c : Child) (k : Str) (o : Option Str)
+    (htx : qGet k c.tx.quals = o.map fun v => [v]) (hc : c.cds = none) : qualFromTxOrCds c k = .ok o := by
+  unfold qualFromTxOrCds
+  cases o with
+  | some v => simp only [Option.map_some] at htx; rw [htx]; rfl
+  | none => simp only [Option.map_none] at htx; rw [htx]; simp only [hc]; rfl
+
+/-- the transcript model, once every sub-computation is known -/
+theorem txModel_eval (prule : ParserRule) (c : Child) (E : List Blk) (st : Strand) (cdsB : List Blk)
+    (frs : List CDSFrame) (oid osym oprot : Option Str)
+    (h1 : exonInterval c.tx = .ok ⟨E, st⟩)
+    (h2 : (c.cds = none ∧ cdsB = [] ∧ frs = []) ∨
+          (∃ cr, c.cds = some cr ∧ cdsInterval prule c = .ok (some ⟨cdsB, st⟩) ∧
+             constructFrames cr ⟨cdsB, st⟩ = .ok frs))
+    (h4 : qGet "pseudo".toList c.tx.quals = none)
+    (hid : qualFromTxOrCds c "transcript_id".toList = .ok oid)
+    (hprot : qualFromTxOrCds c "protein_id".toList = .ok oprot)
+    (hprod : qualFromTxOrCds c "product".toList = .ok none)
+    (hsym : qualFromTxOrCds c "gene".toList = .ok osym) :
+    txModel prule c = .ok
+      { strand := c.tx.strand, exons := E, cds := cdsB, frames := frs, txId := oid, txSymbol := osym,
+        proteinId := oprot, product := none,
+        txType := if c.tx.type == tyMRNA then Model.Gb.sProteinCoding else c.tx.type,
+        quals := mergeCdsQualifiers c } := by
+  have hpseudo : hasKey "pseudo".toList c.tx.quals = false := by unfold hasKey; rw [h4]; rfl
+  unfold txModel
+  rcases h2 with ⟨hc, rfl, rfl⟩ | ⟨cr, hc, hci, hcf⟩
+  · have hci : cdsInterval prule c = .ok none := by unfold cdsInterval; rw [hc]; rfl
+    simp only [h1, hci, hc, bind, Except.bind, pure, Except.pure, hid, hprot, hprod, hsym, hpseudo,
+      Bool.false_eq_true, if_false]
+  · simp only [h1, hci, hc, hcf, bind, Except.bind, pure, Except.pure, hid, hprot, hprod, hsym, hpseudo,
+      Bool.false_eq_true, if_false]
 
 end BioCantor.Proofs.Gb
